@@ -1,6 +1,7 @@
 """Per-property checks. Each returns
    {level, coverage, assumptions, viols:[{prop,pred,ctx,where}], notes}."""
 import json, os, itertools, time
+import concurrent.futures as cf
 
 import vlib
 import families as F
@@ -77,8 +78,9 @@ def console_check(pid, tier, seed, work, mc_cfgs, fam_specs, level_note, hs_fams
     mcs = []
     for module, cfg in mc_cfgs:
         mcs.append(F.model_check(module, cfg, work))
-    fams = [F.console_family(work, **fs) for fs in fam_specs]
-    fams += [F.handshake_family(work, **fs) for fs in hs_fams]
+    with cf.ThreadPoolExecutor(max_workers=3) as ex:
+        fams = list(ex.map(lambda fs: F.console_family(work, **fs), fam_specs))
+        fams += list(ex.map(lambda fs: F.handshake_family(work, **fs), hs_fams))
     require_accepted(fams)
     viols = []
     for f in fams:
@@ -211,7 +213,8 @@ def hs_check(pid, tier, seed, work, fam_specs, mc=True, mutants=()):
         if not ok:
             raise vlib.Inconclusive("model mutant %s did not violate %s: the invariant is vacuous" % (cfg, inv))
         killed.append({"cfg": cfg, "violates": inv})
-    fams = [F.handshake_family(work, **fs) for fs in fam_specs]
+    with cf.ThreadPoolExecutor(max_workers=3) as ex:
+        fams = list(ex.map(lambda fs: F.handshake_family(work, **fs), fam_specs))
     require_accepted(fams)
     viols = []
     for f in fams:
@@ -372,9 +375,8 @@ VEC_ASSUME = ["TLC 1.8 evaluates the specification tables (Layout/LayerTables/Pr
 
 
 def vec_check(pid, tier, seed, work, fam_specs, rule, level="exploration"):
-    fams = []
-    for fs in fam_specs:
-        fams.append(F.vector_family(work, **fs))
+    with cf.ThreadPoolExecutor(max_workers=4) as ex:
+        fams = list(ex.map(lambda fs: F.vector_family(work, **fs), fam_specs))
     require_accepted(fams)
     viols = []
     for f in fams:
